@@ -33,7 +33,7 @@ FLOOR = {
     "twin": 1, "outcome:returned": 20, "outcome:refused": 1, "values_compared": 500,
 }
 
-KINDS = ["pair", "pair", "pair-onekind", "square", "chain3", "evidence", "unaligned", "incompatible", "pair-sparse", "pair-mixing", "twin", "pair-arities", "pair-arities", "square-wide", "square-wide"]
+KINDS = ["pair", "pair", "pair-onekind", "square", "chain3", "evidence", "unaligned", "incompatible", "pair-sparse", "pair-mixing", "twin", "pair-arities", "pair-arities", "square-wide", "square-wide", "pair-kron", "pair-kron", "evidence-wide", "evidence-wide"]
 
 
 def plan(tier, seed):
@@ -66,6 +66,11 @@ def build(case):
         # squares of circuits with several outputs, sums of arity 2-3 and >= 2 units: mirrored layer
         # pairs (a, b) / (b, a) of distinct layers arise
         over.update(max_reps=3, outputs=2, out_units=2, mixing_prob=0.0, leaf_sum_prob=0.6, leaf_mix_prob=0.8)
+    if kind == "pair-kron":
+        # binary Kronecker products in both operands with 1-3 units each (different unit counts K1 != K2 >= 2 included)
+        over.update(prod_kinds=("kronecker",), kron_max_units=3, max_parts=2, nvars=rng.randint(2, 3), shuffle_inputs_prob=0.0, mixing_prob=0.0)
+    if kind == "evidence-wide":
+        over.update(max_units=3, out_units=2, nvars=rng.randint(2, 4))
     if kind == "pair-mixing":
         over.update(mixing_prob=0.9, max_reps=3, prod_kinds=("hadamard",))
     cfg1 = _cfg(rng, kinds, **over)
@@ -101,7 +106,7 @@ def build(case):
     else:
         ops, meta = gen.gen_compatible_pair(rng, cfg1, cfg2)
     domains = dict(meta["domains"])
-    if kind == "evidence":
+    if kind in ("evidence", "evidence-wide"):
         ids = sorted(domains)
         z = pipes.random_subset(rng, ids, proper=len(ids) > 1)
         if len(z) == len(ids):
